@@ -58,7 +58,7 @@ theorem onProc_others (n : Nat) (f : Cfg → Proc.S → Proc.S) (s : Sup) : othe
     split
     · rfl
     · rename_i e he
-      have hfold : ∀ (l : List Out) (acc : Sup), (l.foldl (regFork n) acc).procs = acc.procs := by
+      have hfold : ∀ (l : List Out) (acc : Sup), (l.foldl (regFork n e.gen) acc).procs = acc.procs := by
         intro l
         induction l with
         | nil => intro acc; rfl
